@@ -14,9 +14,11 @@ from __future__ import annotations
 
 import itertools
 import logging
+import os
 import pickle  # noqa: S403
 import re
 import sys
+import tempfile
 import warnings
 from abc import abstractmethod
 from importlib.metadata import version
@@ -391,12 +393,23 @@ def perform_cached_doit(
     h = get_readable_hash(unevaluated_expr)
     filename = cache_directory / f"{h}.pkl"
     if filename.exists():
-        with open(filename, "rb") as f:
-            return pickle.load(f)  # noqa: S301
+        try:
+            with open(filename, "rb") as f:
+                cached_expr, unfolded_expr = pickle.load(f)  # noqa: S301
+            # the hash is not necessarily unique (see get_readable_hash)
+            if bool(cached_expr == unevaluated_expr):
+                return unfolded_expr
+        except Exception:  # noqa: BLE001  # truncated, corrupt, or outdated file
+            _LOGGER.warning(f"Could not load cached expression file {filename}")
     _LOGGER.warning(
         f"Cached expression file {filename} not found, performing doit()..."
     )
     unfolded_expr = unevaluated_expr.doit()
-    with open(filename, "wb") as f:
-        pickle.dump(unfolded_expr, f)
+    # write to a temporary file first, so that the cache file is never incomplete
+    fd, temporary_filename = tempfile.mkstemp(
+        dir=cache_directory, prefix=f"{h}-", suffix=".tmp"
+    )
+    with os.fdopen(fd, "wb") as f:
+        pickle.dump((unevaluated_expr, unfolded_expr), f)
+    os.replace(temporary_filename, filename)
     return unfolded_expr
